@@ -5,11 +5,13 @@ package app
 import (
 	"errors"
 	"io"
+	"log/slog"
 	"net/http"
 	"net/url"
 	"os"
 	"strings"
 
+	"github.com/nuetzliches/hookaido/internal/admin"
 	"github.com/nuetzliches/hookaido/internal/config"
 	"github.com/nuetzliches/hookaido/internal/ingress"
 	"github.com/nuetzliches/hookaido/internal/queue"
@@ -229,4 +231,83 @@ func hReloadSame(running config.Compiled, state *runtimeState) (config.Compiled,
 		return running, false
 	}
 	return running, true
+}
+
+type hFileEvent struct {
+	path string
+	data string
+}
+
+// verif:harness props=C18 tier=quick weight=20
+// verif:bounds management endpoint mutation through the real mutateManagedEndpointConfig with every stage failing in turn (read, parse, compile, mutation, not-applied, format, re-parse, re-compile, write, post-write validation, reload) or none; file I/O, Parse/Compile/Format and reloadConfig replaced by recording stubs
+func VerifC18ManagedMutationRollsBack() {
+	const path = "/etc/h/Hookaidofile"
+	fail := vrt.Choose("fails-at", 12)
+	var writes []hFileEvent
+	parses, compiles := 0, 0
+	vrt.Replace(os.ReadFile, func(name string) ([]byte, error) {
+		if fail == 1 {
+			return nil, errors.New("read error")
+		}
+		return []byte("OLD"), nil
+	})
+	vrt.Replace(config.Parse, func(data []byte) (*config.Config, error) {
+		parses++
+		if (fail == 2 && parses == 1) || (fail == 7 && parses == 2) {
+			return nil, errors.New("parse error")
+		}
+		return &config.Config{}, nil
+	})
+	vrt.Replace(config.Compile, func(cfg *config.Config) (config.Compiled, config.ValidationResult) {
+		compiles++
+		if (fail == 3 && compiles == 1) || (fail == 8 && compiles == 2) {
+			return config.Compiled{}, config.ValidationResult{OK: false, Errors: []string{"bad"}}
+		}
+		return config.Compiled{}, config.ValidationResult{OK: true}
+	})
+	vrt.Replace(config.Format, func(cfg *config.Config) ([]byte, error) {
+		if fail == 6 {
+			return nil, errors.New("format error")
+		}
+		return []byte("NEW"), nil
+	})
+	vrt.Replace(config.FormatValidationText, func(res config.ValidationResult) string { return "invalid" })
+	vrt.Replace(writeFileAtomic, func(p string, data []byte) error {
+		writes = append(writes, hFileEvent{p, string(data)})
+		if fail == 9 && len(writes) == 1 {
+			return errors.New("disk full")
+		}
+		return nil
+	})
+	vrt.Replace(reloadConfig, func(p string, running config.Compiled, state *runtimeState, logger *slog.Logger, trigger string) (config.Compiled, bool) {
+		return running, fail != 11
+	})
+	mutation := func(cfg *config.Config, compiled config.Compiled) (admin.ManagementEndpointMutationResult, error) {
+		if fail == 4 {
+			return admin.ManagementEndpointMutationResult{}, errors.New("conflict")
+		}
+		res := admin.ManagementEndpointMutationResult{Applied: fail != 5}
+		res.PostWriteValidate = func() error {
+			if fail == 10 {
+				return errors.New("backlog appeared")
+			}
+			return nil
+		}
+		return res, nil
+	}
+	_, _, err := mutateManagedEndpointConfig(path, config.Compiled{}, nil, nil, mutation, "test")
+	for _, w := range writes {
+		vrt.Assert("C18.mutation.touches-only-the-config-file", w.path == path)
+	}
+	switch {
+	case fail == 0:
+		vrt.Assert("C18.mutation.success-writes-the-validated-new-content-once", err == nil && len(writes) == 1 && writes[0].data == "NEW" && parses == 2 && compiles == 2)
+	case fail >= 1 && fail <= 8:
+		vrt.Assert("C18.mutation.nothing-written-before-the-candidate-parsed-and-compiled", len(writes) == 0)
+	case fail == 9:
+		vrt.Assert("C18.mutation.failed-write-is-an-error", err != nil)
+	case fail == 10 || fail == 11:
+		ok := err != nil && len(writes) == 2 && writes[0].data == "NEW" && writes[1].data == "OLD"
+		vrt.Assert("C18.mutation.previous-content-put-back-when-validation-or-reload-fails", ok)
+	}
 }
